@@ -30,10 +30,10 @@ from vp.net import doubles as D
 
 PROPERTY = "C24"
 LEVEL = "fault_enumeration"
-NCALLS = {"quick": 6, "thorough": 7}
+NCALLS = {"quick": 5, "thorough": 7}
 RULE = ("per transport variant (Client, ClientTls, Incomer, IncomerTls, Driver+fake server, Driver+SerialNb+fake port): "
         "exhaustive enumeration of every send-result sequence (would-block, 0, every partial length, full) over every "
-        "queue of 1-2 messages of length 1-3 (thorough: 1-3 messages of length 1-4) until drained or 6 (thorough 7; 6 for "
+        "queue of 1-2 messages of length 1-3 (thorough: 1-3 messages of length 1-4) until drained or 5 (thorough 7; 6 for "
         "3-message queues) service calls, + exhaustive receive scripts (chunk lengths 1-3 / would-block, up to 4 items, "
         "serviceReceives and serviceReceiveOnce), + Hypothesis histories (<= 120 ops, messages up to 2 KiB, interleaved "
         "tx/rx, TLS want-read/want-write) + real socketpair cases with minimal kernel buffers; invariant checked after "
@@ -456,8 +456,18 @@ def lens_space(tier):
     return one + two + three
 
 
+def _freeze():
+    """plan() runs in the parent just before the worker pool forks: move everything allocated so far
+    (ioflo, hypothesis) out of the collector's reach so that collections in the children do not touch
+    (and copy) the inherited pages - measured 3-10x faster shards on this VM."""
+    import gc
+    gc.collect()
+    gc.freeze()
+
+
 def plan(tier):
     import ioflo.aio.tcp.serving, ioflo.aio.tcp.clienting, ioflo.aio.serial.serialing, ioflo.aio.wiring  # noqa: preload before fork
+    _freeze()
     shards = []
     space = lens_space(tier)
     for v in FAKE_VARIANTS:
